@@ -33,8 +33,11 @@ enum Supply {
     SameLayoutOtherType,
     OtherLayout,
     ValueOfNext,
+    /// the expected value itself, at a type that differs only where that value has nothing (None's payload, the
+    /// other side of a Left / Right, the elements of an empty list)
+    HiddenPosition,
 }
-const SUPPLIES: [Supply; 6] = [Supply::Exact, Supply::Wrong, Supply::Absent, Supply::SameLayoutOtherType, Supply::OtherLayout, Supply::ValueOfNext];
+const SUPPLIES: [Supply; 7] = [Supply::Exact, Supply::Wrong, Supply::Absent, Supply::SameLayoutOtherType, Supply::OtherLayout, Supply::ValueOfNext, Supply::HiddenPosition];
 
 pub fn run(rep: &Report) -> i32 {
     let quick = rep.is_quick();
@@ -219,6 +222,14 @@ fn check_tuple_named(rep: &Report, tys: &[Ty], idx: usize, env: &drive::Env, sch
                             map.push((wname(scheme, i), zero_val(&o), o));
                             expect_err = true;
                         }
+                        Supply::HiddenPosition => match hidden_position_variant(t, &lits[i]) {
+                            Some(o) if o != *t => {
+                                map.push((wname(scheme, i), lits[i].clone(), o));
+                                expect_err = true;
+                                nontrivial = true;
+                            }
+                            _ => map.push((wname(scheme, i), lits[i].clone(), t.clone())),
+                        },
                         Supply::ValueOfNext => {
                             let j = (i + 1) % n;
                             map.push((wname(scheme, i), lits[j].clone(), tys[j].clone()));
